@@ -50,6 +50,11 @@ def plan(tier):
         out.append((C.cfg(two, [], ['ok', 'ok'], 2, second=second), 2 if tier == 'thorough' else 1))
     if tier == 'thorough':
         out.append((C.cfg(3, C.CHAIN2, ['ok'] * 3, 2, second=C.JOIN3HS), 1))
+    # B'''': a dependency whose update carries its own status first (outcome `okstatus`), next to an independent task that can wake
+    # the master up in the middle of a piecewise apply()
+    for edges in ([(2, 0, 'h')], [(2, 0, 's')], [(1, 0, 'h')]):
+        out.append((C.cfg(3, edges, ['okstatus', 'ok', 'ok'], 2), 2 if tier == 'thorough' else 1))
+    out.append((C.cfg(two, C.CHAIN2, ['okstatus', 'ok'], 2), 2))
     # C: every forward DAG on 3 tasks, every edge hard or soft
     for edges in C.forward_dags(3):
         out.append((C.cfg(3, edges, ['ok'] * 3, 2), 1))
